@@ -1,3 +1,4 @@
+import ast
 import subprocess as sp
 import warnings
 
@@ -38,6 +39,25 @@ def file_mode_for_path(path):
     return mode
 
 
+def is_valid_result(text, formatted_text):
+    """Checks that the formatter did not destroy the code."""
+    if text.strip() and not formatted_text.strip():
+        return False
+
+    try:
+        ast.parse(text)
+    except SyntaxError:  # pragma: no cover
+        # there is nothing which can be compared
+        return True
+
+    try:
+        ast.parse(formatted_text)
+    except SyntaxError:
+        return False
+
+    return True
+
+
 def format_code(text, filename):
     if _config.config.format_command is not None:
         format_command = _config.config.format_command.format(filename=filename)
@@ -53,7 +73,17 @@ def format_code(text, filename):
                 + result.stderr.decode("utf-8")
             )
             return text
-        return result.stdout.decode("utf-8")
+
+        formatted_text = result.stdout.decode("utf-8")
+        if not is_valid_result(text, formatted_text):
+            raise_problem(
+                f"""\
+[b]The format_command '{escape(format_command)}' did not return valid python code, its output is ignored:[/b]
+"""
+                + escape(formatted_text[:200])
+            )
+            return text
+        return formatted_text
 
     try:
         from black import format_str
